@@ -37,6 +37,17 @@ PROPS = {
                                      'zero-fill of the tail after a PARTIAL read is recorded (partial_tail_* counters), not judged'],
         floor={'quick': 500, 'thorough': 1000},
     ),
+    'C06': dict(
+        runs=[dict(src='c06_seek_partition.c')],
+        level='exploration',
+        rule=('case = one walk on one handle of a generated file (container, encoding, channels, walk seed): either a pure partition walk (reads only, '
+              'random sizes/types/variants to EOF) or a seek+read walk (400 steps quick / 5000 thorough). Every read is compared with the per-type sequential '
+              'reference at the modelled position; every seek must return the target or -1 with an error; SEEK_CUR must equal the modelled position. '
+              'distinct = hash(format, ch, walk index, PRNG state)'),
+        assumptions=COMMON_ASSUME + ['the sequential reference is one sf_readf call per type on a fresh handle',
+                                     'a codec may refuse to seek (-1 with error): then only position coherence is asserted'],
+        floor={'quick': 300, 'thorough': 1000},
+    ),
 }
 
 NOT_APPLICABLE = {}
